@@ -1423,7 +1423,11 @@ func (v *VMValue) ArrayRepeatTimesEx(ctx *Context, times *VMValue) *VMValue {
 		ad, _ := v.ReadArray()
 		length := IntType(len(ad.List)) * times
 
-		if length > 512 {
+		if times < 0 {
+			ctx.Error = errors.New("数组重复次数不能为负数")
+			return nil
+		}
+		if length > 512 || (times != 0 && length/times != IntType(len(ad.List))) {
 			ctx.Error = errors.New("不能一次性创建过长的数组")
 			return nil
 		}
